@@ -13,6 +13,12 @@ S2  every (state, call) pair of the state graph (thorough: every transition) is 
     Application subclass (SimApp) that exercises application.py's own start/join/cancel
     logic.  Every case of MCResults is run through a real wrapper and the alignment rows,
     the order, the tree leaves and the sequence objects are compared with TLC's values.
+    The history starts with the action "construct" (it may fail: the binary is asked for its
+    version and is missing / of the wrong version / silent, or the arguments are refused) and
+    the program may resist the signals it can catch.  specs/C20/MCOptions.tla: every order of
+    every subset of the class-specific option setters x the class-specific result getters
+    (distance matrix, guide trees), with the program writing known content into every output
+    file it is asked for.
 S3  random call sequences (<= 16 calls, any combination of the tool dimensions) are recorded
     and validated by TLC (Trace.tla); random successful runs (up to 40 sequences, arbitrary
     permutations and lengths) are recorded together with the program's own copy of what it
@@ -110,6 +116,10 @@ def _sim_class():
         def get_guide_tree(self):
             return self._results
 
+        @requires_state(AppState.JOINED)
+        def get_distance_matrix(self):
+            return self._results
+
         @requires_state(AppState.FINISHED | AppState.JOINED)
         def get_exit_code(self):
             return {"exit0": 0, "exit3": 3}.get(self._tool["ending"], -9)
@@ -130,11 +140,15 @@ def _sim_class():
 
 
 DEFAULT_TOOL = {"launch": "ok", "order": "identity", "output": "complete", "ending": "exit0",
-                "vol": "small"}
+                "vol": "small", "stop": "default", "build": "ok"}
 TOOL_DIMS = {"order": ["identity", "reversed", "rotated"],
              "output": ["complete", "truncated", "garbage", "none"],
              "ending": ["exit0", "exit3", "SIGKILL", "SIGTERM", "SIGSEGV"],
-             "vol": ["small", "bigout", "bigerr", "bigboth"]}
+             "vol": ["small", "bigout", "bigerr", "bigboth"],
+             "stop": ["default", "resists"]}
+BUILDS = ["ok", "no_binary", "wrong_version", "no_version", "bad_input"]
+ASKS_VERSION = ("muscle3", "muscle5")   # MsaOptions!AsksVersion: classes whose constructor runs the binary
+VERSION_TEXT = {"muscle3": "MUSCLE v3.8.31 by Robert C. Edgar", "muscle5": "muscle 5.1.linux64 []"}
 HANG_AFTER = 20.0   # seconds after which a call that should return is recorded as "Hang"
 LONG_TIMEOUT = 15.0  # the timeout of "join_T"
 
@@ -143,10 +157,64 @@ class _Hang(BaseException):
     pass
 
 
+def realisable(kind, tool):
+    """Can a wrapper of this kind meet this behaviour of the environment?  The simulated remote
+    job has no pipes, no signals and no binary; a construction can only fail on the binary's
+    version answer for the classes that ask for it."""
+    if kind == "sim":
+        return tool["vol"] == "small" and tool["stop"] == "default" and tool["build"] == "ok"
+    if tool["build"] in ("no_binary", "wrong_version", "no_version"):
+        return kind in ASKS_VERSION
+    return True
+
+
+def tool_matrix(n):
+    """The distance matrix fixtures/bin/fake_msa writes (MsaOptions!ToolMatrix)."""
+    return [[0 if i == j else 10 + abs(i - j) for j in range(n)] for i in range(n)]
+
+
+def clades_of(tree):
+    """A guide tree as the specification sees it: the leaf-number lists below every inner node,
+    by size."""
+    out = []
+
+    def walk(node):
+        if node.is_leaf():
+            return [int(node.index)]
+        leaves = []
+        for ch in node.children:
+            leaves += walk(ch)
+        out.append(sorted(leaves))
+        return leaves
+
+    walk(tree.root)
+    return sorted(out, key=lambda c: (len(c), c))
+
+
+def tree_from_clades(clades, n):
+    """The Tree with exactly these clades (leaf lists below the inner nodes)."""
+    from biotite.sequence.phylo import Tree
+
+    cl = sorted((sorted(c) for c in clades), key=len)
+
+    def build(members, inner):
+        # maximal clades strictly inside `members`
+        sub = [c for c in inner if set(c) < set(members)]
+        top = [c for c in sub if not any(set(c) < set(d) for d in sub)]
+        covered = {x for c in top for x in c}
+        parts = [build(c, sub) for c in top] + [f"{x}:1.0" for x in members if x not in covered]
+        return "(" + ",".join(parts) + "):1.0"
+
+    root = cl[-1] if cl and len(cl[-1]) == n else list(range(n))
+    return Tree.from_newick(build(root, cl)[:-4] + ";")
+
+
 def tool_env(tool):
     """The environment of fixtures/bin/fake_msa for one behaviour record of the specification."""
     env = {"FAKE_MSA_BEHAVIOUR": {"identity": "ok", "reversed": "reordered", "rotated": "rotated"}[tool["order"]],
            "FAKE_MSA_OUTPUT": "complete", "FAKE_MSA_VOLUME": tool["vol"],
+           "FAKE_MSA_TREES": "distinct",
+           "FAKE_MSA_STOP": {"default": "", "resists": "resist"}[tool.get("stop", "default")],
            "FAKE_MSA_ENDING": {"exit0": "exit0", "exit3": "exit3", "SIGKILL": "KILL", "SIGTERM": "TERM",
                                "SIGSEGV": "SEGV"}[tool["ending"]]}
     if tool["output"] == "garbage":
@@ -167,14 +235,26 @@ def make_seq_text(k, length, st):
 
 class Harness:
     def __init__(self, kind, tool, seqs=("ACGT", "AC", "ACG"), protein=False, custom=False,
-                 order=None, pad=None, copy=False, hanging=True):
-        from biotite.sequence import NucleotideSequence, ProteinSequence
-
+                 order=None, pad=None, copy=False, hanging=True, full=True, matrix=False):
+        """Prepares the environment of one history; the wrapper object itself is created by the
+        action "construct" (do("construct")).  full: ClustalOmegaApp gets
+        full_matrix_calculation() right after its construction (the life-cycle stages; the
+        option cases decide themselves)."""
         self.kind, self.tool = kind, tool
-        self.home = os.getcwd()
+        self.seqs, self.protein, self.custom, self.full, self.matrix = seqs, protein, custom, full, matrix
+        self.home = self.orig_cwd = os.getcwd()
         self.dir = tempfile.mkdtemp(prefix="c20-", dir=os.environ.get("C20_TMP") or None)
         self.exec_dir = os.path.join(self.dir, "exec")
         os.mkdir(self.exec_dir)
+        self.later = os.path.join(self.dir, "later")
+        os.mkdir(self.later)
+        # a private directory for everything the wrapper creates with the tempfile module:
+        # "no temporary file left behind" is observed on the directory, not on the wrapper's
+        # own book-keeping (there is no wrapper object after a refused construction)
+        self.tmpdir = os.path.join(self.dir, "tmp")
+        os.mkdir(self.tmpdir)
+        self.old_tempdir = tempfile.tempdir
+        tempfile.tempdir = self.tmpdir
         self.trigger = os.path.join(self.dir, "trigger")
         self.marker = os.path.join(self.dir, "marker")
         self.copy = os.path.join(self.dir, "copy.fa") if copy else None
@@ -193,45 +273,79 @@ class Harness:
             os.environ["FAKE_MSA_COPY"] = self.copy
         if not hanging:
             open(self.trigger, "w").close()   # the program does its work without waiting
-        os.environ["FAKE_MSA_VERSION"] = {"muscle3": "MUSCLE v3.8.31 by Robert C. Edgar",
-                                          "muscle5": "muscle 5.1.linux64 []"}.get(kind, "fake 1.0")
+        # what the binary answers when it is asked for its version
+        build = tool.get("build", "ok")
+        version = VERSION_TEXT.get(kind, "fake 1.0")
+        if build == "wrong_version":
+            version = VERSION_TEXT["muscle5" if kind == "muscle3" else "muscle3"]
+        elif build == "no_version":
+            version = "fake tool that does not tell its version"
+        os.environ["FAKE_MSA_VERSION"] = version
         self.cleanups = 0
         self._depth = 0
-        self.inputs = [(ProteinSequence if protein else NucleotideSequence)(s) for s in seqs]
+        self.app = None
+        self.inputs = []
+
+    def _class(self):
+        from biotite.application.clustalo import ClustalOmegaApp
+        from biotite.application.mafft import MafftApp
+        from biotite.application.muscle import Muscle5App, MuscleApp
+
+        return {"clustalo": ClustalOmegaApp, "muscle3": MuscleApp, "muscle5": Muscle5App,
+                "mafft": MafftApp}[self.kind]
+
+    def _construct(self):
+        """The action "construct".  build = "bad_input": every kind of argument the class
+        documents as refused is tried; they must all be refused."""
+        import numpy as np
+        from biotite.sequence import Alphabet, GeneralSequence, NucleotideSequence, ProteinSequence
+        from biotite.sequence.align import SubstitutionMatrix
+
+        kind, tool, seqs = self.kind, self.tool, self.seqs
+        build = tool.get("build", "ok")
+        self.inputs = [(ProteinSequence if self.protein else NucleotideSequence)(s) for s in seqs]
         matrix = None
-        if custom and kind in ("muscle3", "mafft"):
+        if self.custom and kind in ("muscle3", "mafft"):
             # sequences of another type: the wrapper maps them onto protein letters for the
             # program (needs a custom matrix) and must hand back the original sequence objects
-            import numpy as np
-            from biotite.sequence import Alphabet, GeneralSequence
-            from biotite.sequence.align import SubstitutionMatrix
-
             alph = Alphabet(["foo", "bar", 42, ("t", 1)])
             self.inputs = [GeneralSequence(alph, [alph.get_symbols()[ord(ch) % 4] for ch in s]) for s in seqs]
             matrix = SubstitutionMatrix(alph, alph, np.identity(4, dtype=int) * 5 - 2)
+        elif self.matrix and kind in ("muscle3", "mafft"):
+            matrix = SubstitutionMatrix.std_protein_matrix()
         if kind == "sim":
             self.app = _sim_class()(tool)
         else:
-            from biotite.application.clustalo import ClustalOmegaApp
-            from biotite.application.mafft import MafftApp
-            from biotite.application.muscle import Muscle5App, MuscleApp
-
-            cls = {"clustalo": ClustalOmegaApp, "muscle3": MuscleApp, "muscle5": Muscle5App,
-                   "mafft": MafftApp}[kind]
-            self.app = cls(self.inputs, self.bin, matrix) if matrix is not None else cls(self.inputs, self.bin)
+            cls = self._class()
+            bin_path = self.bin if build != "no_binary" else os.path.join(self.dir, "no_such_binary")
+            if build == "bad_input":
+                prot = [ProteinSequence("MKV"), ProteinSequence("MK")]
+                other = NucleotideSequence("ACG") if self.protein else prot[0]
+                variants = {"one_sequence": (self.inputs[:1],), "mixed_alphabets": ([self.inputs[0], other],)}
+                if kind in ("muscle3", "mafft"):
+                    alph = ProteinSequence.alphabet
+                    asym = np.arange(len(alph) ** 2, dtype=int).reshape(len(alph), len(alph)) % 7
+                    variants["asymmetric_matrix"] = (prot, SubstitutionMatrix(alph, alph, asym))
+                accepted, errors = [], []
+                for name, args in variants.items():
+                    try:
+                        obj = cls(args[0], bin_path, *args[1:])
+                    except Exception as e:  # noqa: BLE001 - outcome class "refused"
+                        errors.append(e)
+                    else:
+                        accepted.append(name)
+                        del obj
+                if accepted:
+                    return "accepted:" + ",".join(accepted)
+                raise errors[0]
+            self.app = cls(self.inputs, bin_path, matrix) if matrix is not None else cls(self.inputs, bin_path)
             self.app.set_exec_dir(self.exec_dir)
+            if kind == "clustalo" and self.full:
+                self.app.full_matrix_calculation()
         if tool["launch"] == "missing" and kind != "sim":
             os.unlink(self.bin)  # the binary disappears before the launch
         if tool["launch"] == "badopt" and kind != "sim":
             self.app.add_additional_options(["--threads", 2])  # a non-string option: Popen refuses
-        # the caller moves on to another directory after creating the wrapper: "home" is the
-        # directory the calling process is in when it makes its calls, not the one it was
-        # in when the wrapper was created
-        self.orig_cwd = self.home
-        later = os.path.join(self.dir, "later")
-        os.mkdir(later)
-        os.chdir(later)
-        self.home = os.getcwd()
         # count outermost clean_up() invocations from outside
         orig = self.app.clean_up
 
@@ -245,6 +359,7 @@ class Harness:
                 self._depth -= 1
 
         self.app.clean_up = counted
+        return ""
 
     # ---- observation --------------------------------------------------------------------
     def temp_paths(self):
@@ -261,6 +376,8 @@ class Harness:
         return out
 
     def proc_state(self):
+        if self.app is None:
+            return "none"
         if self.kind == "sim":
             return self.app._backend
         p = getattr(self.app, "_process", None)
@@ -284,10 +401,13 @@ class Harness:
             while self.proc_state() != "exited" and time.time() - t0 < 5.0:
                 time.sleep(0.002)
         if self.kind == "sim":
-            files = "present" if self.app._files else "absent"
+            files = "present" if self.app is not None and self.app._files else "absent"
         else:
-            files = "present" if any(os.path.exists(p) for p in self.temp_paths()) else "absent"
-        return {"app": self.app._state.name, "proc": self.proc_state(), "files": files,
+            # anything in the private temporary directory, or any file the wrapper keeps a name of
+            files = "present" if os.listdir(self.tmpdir) or (
+                self.app is not None and any(os.path.exists(p) for p in self.temp_paths())) else "absent"
+        return {"app": self.app._state.name if self.app is not None else "NONE",
+                "proc": self.proc_state(), "files": files,
                 "cleanups": self.cleanups,
                 "cwd": "home" if os.getcwd() == self.home else "moved"}
 
@@ -338,7 +458,18 @@ class Harness:
         a = self.app
         try:
             out = ""
-            if c == "start":
+            if c == "construct":
+                try:
+                    out = self._construct()
+                finally:
+                    # the caller moves on to another directory after creating the wrapper:
+                    # "home" is the directory the calling process is in when it makes its
+                    # calls, not the one it was in when the wrapper was created
+                    os.chdir(self.later)
+                    self.home = os.getcwd()
+            elif a is None:
+                raise ValueError(f"{c}: there is no wrapper object")
+            elif c == "start":
                 a.start()
             elif c == "join":
                 a.join()
@@ -366,6 +497,8 @@ class Harness:
                 out = self._check_order(a.get_alignment_order())
             elif c == "get_tree":
                 out = self._check_tree(a.get_guide_tree())
+            elif c == "get_dist":
+                out = self._check_dist(a.get_distance_matrix())
             elif c == "get_exit_code":
                 code = a.get_exit_code()
                 out = str(code) if code >= 0 else "signal"   # Popen: -N = killed by signal N
@@ -408,6 +541,9 @@ class Harness:
                 for i in range(1, n):
                     nwk = f"({nwk},{i})"
                 calls.append(lambda: a.set_guide_tree(Tree.from_newick(nwk + ";")))
+                calls.append(lambda: a.full_matrix_calculation())
+                calls.append(lambda: a.set_distance_matrix(_np_matrix([[0 if i == j else i + j + 2 for j in range(n)]
+                                                                      for i in range(n)])))
             elif self.kind == "muscle3":
                 calls.append(lambda: a.set_gap_penalty(-3.0))
                 calls.append(lambda: a.set_gap_penalty((-5.0, -1.0)))
@@ -463,10 +599,117 @@ class Harness:
         idx = sorted(int(leaf.index) for leaf in tree.leaves)
         return "tree_with_every_sequence_once" if idx == list(range(len(self.inputs))) else f"bad:{idx}"
 
+    def _check_dist(self, m):
+        if self.kind == "sim":
+            return "matrix_the_program_wrote"
+        if m is None:
+            return "bad:none"
+        vals = [[float(x) for x in row] for row in m]
+        return "matrix_the_program_wrote" if vals == tool_matrix(len(self.inputs)) else f"other:{vals[:3]}"
+
     def has(self, c):
         if c == "get_tree" and self.kind == "muscle5":
             return False
+        if c == "get_dist" and self.kind not in ("clustalo", "sim"):
+            return False
         return True
+
+    # ---- class-specific options and results (specs/C20/MsaOptions.tla) --------------------
+    def apply_setter(self, name, given):
+        """One option setter of the wrapper class; `given` holds the caller's matrix / tree as
+        computed by the specification."""
+        a = self.app
+        n = len(self.inputs)
+        if name == "full":
+            a.full_matrix_calculation()
+        elif name == "dist_in":
+            a.set_distance_matrix(_np_matrix(given["matrix"]))
+        elif name == "tree_in":
+            a.set_guide_tree(tree_from_clades(given["tree"], n))
+        elif name == "gap_lin":
+            a.set_gap_penalty(-3.0)
+        elif name == "gap_aff":
+            a.set_gap_penalty((-5.0, -1.0))
+        elif name == "iters":
+            a.set_iterations(2, 1)
+        elif name == "threads":
+            a.set_thread_number(2)
+        elif name == "super5":
+            a.use_super5()
+        elif name == "matrix":
+            pass   # the substitution matrix is an argument of the constructor
+        else:
+            raise ValueError(name)
+
+    def extra_getters(self):
+        """name -> zero-argument call, for the result getters only this class has."""
+        a = self.app
+        if self.kind == "clustalo":
+            return {"dist": a.get_distance_matrix, "tree_default": a.get_guide_tree}
+        if self.kind == "muscle3":
+            return {"tree_default": a.get_guide_tree, "tree_kmer": lambda: a.get_guide_tree("kmer"),
+                    "tree_identity": lambda: a.get_guide_tree("identity")}
+        if self.kind == "mafft":
+            return {"tree_default": a.get_guide_tree}
+        return {}
+
+    def extras(self):
+        """The class-specific results as values of MsaOptions!Extras + the getters' outcomes."""
+        from biotite.application.application import AppStateError
+
+        val = {"dist": {"k": "nogetter", "m": []}, "tree_default": [], "tree_kmer": [], "tree_identity": []}
+        ocs = {}
+        for name, get in self.extra_getters().items():
+            try:
+                r = get()
+                ocs[name] = "ok"
+            except AppStateError:
+                ocs[name] = "AppStateError"
+                r = None
+            except Exception as e:  # noqa: BLE001
+                ocs[name] = f"Rejected:{type(e).__name__}"
+                r = None
+            if name == "dist":
+                if ocs[name] == "AppStateError":
+                    val["dist"] = {"k": "AppStateError", "m": []}
+                elif r is None:
+                    val["dist"] = {"k": "absent", "m": []}   # refused, or nothing handed out
+                    ocs[name] = "ok"
+                else:
+                    rows = [[float(x) for x in row] for row in r]
+                    if all(x == int(x) for row in rows for x in row):
+                        val["dist"] = {"k": "value", "m": [[int(x) for x in row] for row in rows]}
+                    else:
+                        val["dist"] = {"k": "value-not-integral", "m": []}
+            elif ocs[name] == "ok":
+                val[name] = [clades_of(r)] if r is not None else [[[-1]]]
+        return ocs, val
+
+    def guards(self, which):
+        """Outcome class of the class-specific getters / setters (which) in the current state;
+        they must all agree ("none": the class has none)."""
+        from biotite.application.application import AppStateError
+
+        def outcome(calls):
+            ocs = set()
+            for f in calls:
+                try:
+                    f()
+                    ocs.add("ok")
+                except AppStateError:
+                    ocs.add("AppStateError")
+                except Exception:  # noqa: BLE001
+                    ocs.add("ok")   # the life cycle let the call through; its own refusal is another matter
+            return "/".join(sorted(ocs)) if ocs else "none"
+
+        given = {"matrix": [[0 if i == j else i + j + 2 for j in range(len(self.inputs))]
+                            for i in range(len(self.inputs))],
+                 "tree": [list(range(k + 1)) for k in range(1, len(self.inputs))]}
+        setters = {"clustalo": ["full", "dist_in", "tree_in"], "muscle3": ["gap_lin", "gap_aff"],
+                   "muscle5": ["iters", "threads", "super5"], "mafft": []}[self.kind]
+        if which == "getters":
+            return outcome(list(self.extra_getters().values()))
+        return outcome([(lambda s=s: self.apply_setter(s, given)) for s in setters])
 
     # ---- results as values of specs/C20/MsaResults.tla -----------------------------------
     def results(self):
@@ -525,9 +768,13 @@ class Harness:
 
     def close(self):
         try:
+            # whatever the wrapper left behind is killed and reaped here, never by a later test
             p = getattr(self.app, "_process", None)
             if p is not None and p.poll() is None:
-                p.kill()
+                try:
+                    os.kill(p.pid, signal.SIGKILL)
+                except OSError:
+                    pass
                 p.wait(timeout=5)
             for path in self.temp_paths():
                 try:
@@ -535,11 +782,18 @@ class Harness:
                 except OSError:
                     pass
         finally:
+            tempfile.tempdir = self.old_tempdir
             try:
                 os.chdir(self.orig_cwd)
             except OSError:
                 pass
             shutil.rmtree(self.dir, ignore_errors=True)
+
+
+def _np_matrix(rows):
+    import numpy as np
+
+    return np.array(rows, dtype=float)
 
 
 def _rle(gap, sym):
@@ -626,24 +880,123 @@ def _small(rows, idx):
     return {str(i): rows[i] for i in idx if i < len(rows)}
 
 
-def run_results_case(kind, cs, tool=None, hang_ok=False):
-    """The plain history start, join() on a program that emits the rows in the order cs["p"];
-    returns (outcomes, observation after join, emitted copy, results)."""
+NO_EXTRAS = {"dist": {"k": "nogetter", "m": []}, "tree_default": [], "tree_kmer": [], "tree_identity": []}
+
+
+def run_results_case(kind, cs, tool=None, setters=None, given=None):
+    """The plain history construct, [option setters], start, join() on a program that emits the
+    rows in the order cs["p"]; returns (outcomes, observations after start and join, emitted
+    copy, getter outcomes, results, sequence type).  With `setters` (a list of setter names,
+    MsaOptions!Setters) the class-specific result getters are read too (val["extra"]) and the
+    class-specific calls are tried in the states that refuse them (oc["guard_*"])."""
     c = cs["case"]
     st = c["st"] if kind in ("muscle3", "mafft") or c["st"] != "custom" else "nuc"
     seqs = [make_seq_text(k, n, st) for k, n in enumerate(cs["L"])]
     h = Harness(kind, tool or DEFAULT_TOOL, seqs=seqs, protein=(st == "prot"), custom=(st == "custom"),
-                order=cs["p"], pad=c["pad"], copy=True, hanging=False)
+                order=cs["p"], pad=c["pad"], copy=True, hanging=False, full=False,
+                matrix=bool(setters) and "matrix" in setters)
+    none = {"rows": [], "order": [], "leaves": [], "sequences": "none", "extra": NO_EXTRAS}
     try:
-        oc1, _ = h.do("start")
+        oc0, _ = h.do("construct")
+        oc = {"construct": oc0, "start": "not-called", "join": "not-called"}
+        if oc0 != "ok":
+            return oc, (h.observe(), h.observe()), None, {}, none, st
+        if setters is not None:
+            oc["guard_getters_created"] = h.guards("getters")
+            for name in setters:
+                try:
+                    h.apply_setter(name, given)
+                except Exception as e:  # noqa: BLE001
+                    oc["construct"] = f"setter {name} refused: {type(e).__name__}"
+                    return oc, (h.observe(), h.observe()), None, {}, none, st
+        oc["start"], _ = h.do("start")
         obs1 = h.observe()
-        oc2, _ = h.do("join")
+        oc["join"], _ = h.do("join")
         obs2 = h.observe(expect_proc="exited")
-        emitted = h.emitted() if oc2 == "ok" else None
-        ocs, val = h.results() if oc2 == "ok" else ({}, {"rows": [], "order": [], "leaves": [], "sequences": "none"})
-        return {"start": oc1, "join": oc2}, (obs1, obs2), emitted, ocs, val, st
+        emitted = h.emitted() if oc["join"] == "ok" else None
+        ocs, val = h.results() if oc["join"] == "ok" else ({}, dict(none))
+        val["extra"] = NO_EXTRAS
+        if setters is not None and oc["join"] == "ok":
+            xocs, val["extra"] = h.extras()
+            ocs.update({"extra:" + k: v for k, v in xocs.items()})
+            oc["guard_setters_joined"] = h.guards("setters")
+        return oc, (obs1, obs2), emitted, ocs, val, st
     finally:
         h.close()
+
+
+def _judge_results(cs, oc, obs1, obs2, emitted, ocs, val):
+    """Compare one executed plain run with the values TLC computed for the case."""
+    s1, s3 = cs["life"]
+    bad = []
+    if oc["construct"] != "ok":
+        return ["construct:" + oc["construct"]]
+    if oc["start"] != s1["oc"] or obs1["app"] not in (s1["app"], "FINISHED"):
+        bad.append("start")
+    bad += ["join:" + b for b in compare(s3, oc["join"], "", obs2)]
+    exp = cs["res"]
+    if not bad:
+        if emitted != cs["out"]:
+            raise RuntimeError(f"fake_msa did not emit what the specification's environment emits: {cs['case']}")
+        bad += [f"{c}:{o}" for c, o in ocs.items() if o != "ok"]
+        if "get_alignment" in ocs:
+            if val["rows"] != exp["rows"]:
+                bad.append("rows")
+            if val["sequences"] != exp["sequences"]:
+                bad.append("sequences")
+        if "get_order" in ocs and val["order"] != exp["order"]:
+            bad.append("order")
+        if "get_tree" in ocs and val["leaves"] != [exp["leaves"]]:
+            bad.append("leaves")
+    return bad
+
+
+def exec_options(item):
+    """S2 of the class-specific half: cases generated by TLC (MCOptions) through the wrapper
+    class of the case: construct, the setters in the order of the case, start, join, every
+    result getter."""
+    from harness.tlabind.pool import progress
+
+    mism = []
+    n_eval = 0
+    for cs in item["cases"]:
+        c = cs["case"]
+        kind = c["kind"]
+        progress({"kind": kind, "case": c})
+        cs = dict(cs, case=dict(c, st=cs["st"]))
+        oc, (obs1, obs2), emitted, ocs, val, _st = run_results_case(kind, cs, setters=c["setters"], given=cs["given"])
+        n_eval += 3 + len(ocs) + 2
+        bad = _judge_results(cs, oc, obs1, obs2, emitted, ocs, val)
+        exp, got = cs["extra"], val["extra"]
+        if not bad:
+            for f in ("dist", "tree_default", "tree_kmer", "tree_identity"):
+                if got[f] != exp[f]:
+                    bad.append("extra:" + f)
+            g = cs["guard"]
+            if oc["guard_getters_created"] not in (g["getter_created"], "none"):
+                bad.append("guard:getters-in-CREATED")
+            if oc["guard_setters_joined"] not in (g["setter_joined"], "none"):
+                bad.append("guard:setters-in-JOINED")
+        if bad:
+            mism.append({"kind": "options", "app_kind": kind, "case": cs["case"], "bad": bad,
+                         "p": cs["p"], "L": cs["L"], "given": cs["given"],
+                         "expected": {"join": cs["life"][1]["oc"], "app": cs["life"][1]["app"], "extra": _short_extra(exp),
+                                      "guard": cs["guard"], "order": cs["res"]["order"][:24]},
+                         "observed": {"construct": oc["construct"], "start": oc["start"], "join": oc["join"],
+                                      "app": obs2["app"], "proc": obs2["proc"], "files": obs2["files"],
+                                      "cleanups": obs2["cleanups"], "extra": _short_extra(got),
+                                      "guard_getters_created": oc.get("guard_getters_created"),
+                                      "guard_setters_joined": oc.get("guard_setters_joined"),
+                                      "order": val["order"][:24], "getters": ocs}})
+    return {"mismatch": mism, "steps": n_eval, "cases": len(item["cases"])}
+
+
+def _short_extra(x):
+    out = dict(x)
+    out["dist"] = {"k": x["dist"]["k"], "m": [r[:6] for r in x["dist"]["m"][:6]]}
+    for f in ("tree_default", "tree_kmer", "tree_identity"):
+        out[f] = [[c[:8] for c in t[:8]] for t in x[f]]
+    return out
 
 
 def exec_results(item):
@@ -656,25 +1009,9 @@ def exec_results(item):
         progress({"kind": kind, "case": cs["case"]})
         oc, (obs1, obs2), emitted, ocs, val, st = run_results_case(kind, cs)
         s1, s3 = cs["life"]
-        n_eval += 2 + len(ocs)
-        bad = []
-        if oc["start"] != s1["oc"] or obs1["app"] not in (s1["app"], "FINISHED"):
-            bad.append("start")
-        bad += ["join:" + b for b in compare(s3, oc["join"], "", obs2)]
+        n_eval += 3 + len(ocs)
+        bad = _judge_results(cs, oc, obs1, obs2, emitted, ocs, val)
         exp = cs["res"]
-        if not bad:
-            if emitted != cs["out"]:
-                raise RuntimeError(f"fake_msa did not emit what the specification's environment emits: {cs['case']}")
-            bad += [f"{c}:{o}" for c, o in ocs.items() if o != "ok"]
-            if "get_alignment" in ocs:
-                if val["rows"] != exp["rows"]:
-                    bad.append("rows")
-                if val["sequences"] != exp["sequences"]:
-                    bad.append("sequences")
-            if "get_order" in ocs and val["order"] != exp["order"]:
-                bad.append("order")
-            if "get_tree" in ocs and val["leaves"] != [exp["leaves"]]:
-                bad.append("leaves")
         if bad:
             diff = [i for i in range(len(exp["rows"])) if i >= len(val["rows"]) or val["rows"][i] != exp["rows"][i]][:3]
             mism.append({"kind": "results", "app_kind": kind, "case": cs["case"], "bad": bad,
@@ -690,9 +1027,9 @@ def exec_results(item):
 
 
 # --------------------------------------------------------------------------- S3 child
-CALLS = ["start", "join", "join_t", "join_T", "cancel", "state", "setter", "get_alignment", "get_order",
-         "get_tree", "get_exit_code", "get_stdout", "get_command", "get_process", "proc_exits",
-         "proc_writes"]
+CALLS = ["construct", "start", "join", "join_t", "join_T", "cancel", "state", "setter", "get_alignment",
+         "get_order", "get_tree", "get_dist", "get_exit_code", "get_stdout", "get_command", "get_process",
+         "proc_exits", "proc_writes"]
 
 
 def gen_trace(item):
@@ -710,12 +1047,13 @@ def gen_trace(item):
     try:
         weights = {"start": 3, "join": 3, "join_t": 2, "join_T": 2, "cancel": 2, "state": 3, "proc_exits": 3,
                    "proc_writes": 3}
-        for _ in range(item["length"]):
-            c = rng.choices(CALLS, weights=[weights.get(x, 1) for x in CALLS])[0]
-            if not h.has(c):
+        for step in range(item["length"]):
+            # a history starts with the construction of the wrapper; there is no second one
+            c = "construct" if step == 0 else rng.choices(CALLS, weights=[weights.get(x, 1) for x in CALLS])[0]
+            if not h.has(c) or (c == "construct") != (step == 0):
                 continue
             proc = h.proc_state()
-            app = h.app._state.name
+            app = h.app._state.name if h.app is not None else "NONE"
             if c == "proc_exits" and not (proc == "running" and not big):
                 continue
             if c == "proc_writes" and not (proc == "running" and big):
@@ -733,8 +1071,8 @@ def gen_trace(item):
             ev = {"c": c, "tool": tool, "oc": oc, "out": out if oc == "ok" else ""}
             ev.update(obs)
             events.append(ev)
-            if c == "start" and oc == "Rejected":
-                break  # failed launch: the run has ended, nothing further is specified
+            if c in ("start", "construct") and oc != "ok":
+                break  # refused construction / failed launch: nothing further is specified
             if oc == "Hang":
                 break  # already a disagreement; further calls would only hang again
     finally:
@@ -763,14 +1101,26 @@ def gen_results(item):
         st = rng.choice(["nuc", "prot", "custom"])
         tool = dict(DEFAULT_TOOL, vol=rng.choice(["small", "small", "bigout", "bigerr", "bigboth"]),
                     ending=rng.choice(["exit0"] * 5 + ["exit3", "SIGKILL", "SIGSEGV"]))
+        # any sequence of the class's option setters, repetitions included
+        names = {"clustalo": ["full", "dist_in", "tree_in"], "muscle3": ["gap_lin", "gap_aff", "matrix"],
+                 "muscle5": ["iters", "threads", "super5"], "mafft": ["matrix"]}[kind]
+        setters = [rng.choice(names) for _ in range(rng.choice([0, 1, 2, 2, 3, 4]))]
+        if "matrix" in setters:
+            st = "prot"
+        given = {"matrix": [[0 if i == j else rng.randint(1, 9) + 20 * (i + j) for j in range(n)] for i in range(n)],
+                 "tree": [list(range(n - 1 - k, n)) for k in range(1, n)]}
+        given["matrix"] = [[given["matrix"][min(i, j)][max(i, j)] for j in range(n)] for i in range(n)]
         cs = {"case": {"st": st, "pad": rng.choice(["end", "alternate"])}, "L": lens, "p": perm}
-        progress({"kind": kind, "n": n, "tool": tool})
-        oc, _obs, emitted, ocs, val, st = run_results_case(kind, cs, tool=tool)
+        progress({"kind": kind, "n": n, "tool": tool, "setters": setters})
+        oc, _obs, emitted, ocs, val, st = run_results_case(kind, cs, tool=tool, setters=setters, given=given)
         bad_getter = [c for c, o in ocs.items() if o != "ok"]
-        events.append({"tool": tool, "join": oc["join"] if not bad_getter else "ok-but-" + bad_getter[0],
+        join = oc["join"] if oc["construct"] == "ok" else "construct:" + oc["construct"]
+        guards = [oc.get("guard_getters_created", "none"), oc.get("guard_setters_joined", "none")]
+        events.append({"tool": tool, "join": join if not bad_getter else "ok-but-" + bad_getter[0],
                        "n": n, "lens": lens, "out": emitted or [], "rows": val["rows"], "order": val["order"],
                        "leaves": val["leaves"], "sequences": val["sequences"], "st": st,
-                       "pad": cs["case"]["pad"], "perm": perm})
+                       "pad": cs["case"]["pad"], "perm": perm, "wkind": kind, "setters": setters,
+                       "given_tree": given["tree"], "extra": val["extra"], "guards": guards, "given": given})
     return {"events": events, "kind": kind}
 
 
@@ -801,6 +1151,10 @@ def run(ctx):
         "a killed child that is a zombie of the calling process counts as gone (not running)",
         "WebApp / BLAST (network) are covered only through Application's shared state logic (SimApp; small-volume behaviours only)",
         "Dom_Complete: result values are compared for runs whose program emitted every input exactly once",
+        "temporary files = anything in the private directory that tempfile.tempdir points to during the history, or any path the wrapper keeps",
+        "a construction can only fail on the binary's version answer for the classes that ask for it (MuscleApp, Muscle5App); refused arguments = one sequence, mixed alphabets, an asymmetric matrix (classes that take one)",
+        "a program that resists SIGTERM / SIGINT / SIGHUP still dies on SIGKILL; the simulated remote job has no signals",
+        "class-specific results: the program writes the fixture's known matrix / trees into every output file it is asked for; a distance matrix that was not asked for may be refused or None",
     ]
     d = tlc.scratch_dir("c20")
     dotf = os.path.join(d, "g.dot")
@@ -833,10 +1187,14 @@ def run(ctx):
         raise Vacuity("no ended run in the model")
     if not any(s["proc"] == "blocked" for s in states):
         raise Vacuity("no program blocked on its output in the model")
-    for dim, vals in TOOL_DIMS.items():
+    for dim, vals in list(TOOL_DIMS.items()) + [("build", BUILDS)]:
         seen = {s["tool"][dim] for s in states}
         if seen != set(vals):
             raise Vacuity(f"tool dimension {dim}: {seen} in the graph, {vals} in the driver")
+    if not any(s["app"] == "NONE" and s["failed"] for s in states):
+        raise Vacuity("no refused construction in the model")
+    if not any(s["tool"]["stop"] == "resists" and s["app"] == "CANCELLED" and s["proc"] == "exited" for s in states):
+        raise Vacuity("no ended run of a signal-resisting program in the model")
     ctx.cov["states_per_outcome"] = ocs
     gfile = os.path.join(d, "graph.json")
     succ = {}
@@ -861,12 +1219,12 @@ def run(ctx):
     items = []
     per_kind_pairs = {}
     for kind in KINDS:
-        idx = list(range(len(paths)))
-        want = all_pairs
-        if kind == "sim":
-            # the simulated remote job has no pipes and no signals of its own
-            idx = [i for i in idx if states[ids[paths[i][0]]]["tool"]["vol"] == "small"]
-            want = set().union(*[pkeys[i] for i in idx])
+        # the behaviours this wrapper class can meet (the simulated remote job has no pipes and
+        # no signals; only the classes that ask for the version can fail on the answer)
+        idx = [i for i in range(len(paths)) if realisable(kind, states[ids[paths[i][0]]]["tool"])]
+        want = set().union(*[pkeys[i] for i in idx])
+        if kind in ASKS_VERSION and want != all_pairs:
+            raise Vacuity(f"S2 {kind}: not every (state, call) pair is realisable")
         if ctx.quick:
             # every (state, call) pair on every real wrapper class: greedy cover, long paths first
             ctx.rng.shuffle(idx)
